@@ -251,7 +251,11 @@ def classify(failure):
 def check_num(run, s, stream, r=None, strict=True):
     """oracle on SectionParser.num(s); returns the canonical real result"""
     if r is None:
-        r = canon(parser().num(s))
+        try:
+            r = canon(parser().num(s))
+        except Exception as e:      # num() must never raise: every text is either a number or kept verbatim
+            run.fail("num-raises", {"stream": stream, "s": s}, {"exc": repr(e)})
+            return ["raised", repr(type(e).__name__)], oracle(s)[0]
     exp, nd = oracle(s)
     if nd > 4300 and exp[0] == "int" and KNOWN_DIGITS not in fw.known_ids(ID):
         # outside the digit-count assumption (see ASSUMPTIONS): the value must still be right, the type is float
@@ -398,7 +402,11 @@ def items(run):
             for i, value in enumerate(ITEM_VALUES):
                 descr = ITEM_VALUES[(i * 7 + 3) % len(ITEM_VALUES)] if df or i % 3 == 0 else "a description"
                 unit = UNITS[(i + len(name)) % len(UNITS)]
-                it = p(name=name, unit=unit, value=value, descr=descr)
+                try:
+                    it = p(name=name, unit=unit, value=value, descr=descr)
+                except Exception as e:
+                    run.fail("item-constructor-raises", {"stream": "items", "name": name, "value": value}, {"exc": repr(e)})
+                    continue
                 r = canon(it.value)
                 real = [it.original_mnemonic, it.unit, r, it.descr]
                 stored = descr if df else value
